@@ -14,6 +14,18 @@ theorem isPrefix_full {file ct : List UInt8} (h : IsPrefix file ct) (hl : ct.len
   rw [h1]
   exact List.take_of_length_le hl
 
+/-- a prefix of a prefix is a prefix: losing the tail of the partial file keeps it sound -/
+theorem isPrefix_take {file ct : List UInt8} (h : IsPrefix file ct) (keep : Nat) : IsPrefix (file.take keep) ct := by
+  obtain ⟨h1, h2⟩ := h
+  refine ⟨?_, ?_⟩
+  · rw [List.length_take]
+    conv => lhs; rw [h1]
+    rw [List.take_take]
+  · rw [List.length_take]; omega
+
+theorem survives_prefix {file ct : List UInt8} (f : Fault) (h : IsPrefix file ct) : IsPrefix (f.survives file) ct := by
+  cases f <;> simp only [Fault.survives] <;> first | exact h | exact isPrefix_take h _
+
 /-- appending the next `fs` bytes of the ciphertext keeps the prefix property -/
 theorem isPrefix_append {file ct : List UInt8} (h : IsPrefix file ct) (fs : Nat)
     (hfs : fs ≤ ct.length - file.length) :
@@ -122,7 +134,7 @@ theorem attempt_good (chunk : Nat) (hc : 0 < chunk) (ct : List UInt8) (d : Disk)
       (incoming_getD_prefix g) (Nat.zero_le _)
     split
     · refine ⟨⟨?_, by intro e h; simp at h⟩, by intro used h; simp at h⟩
-      intro f' hf'; simp at hf'; rw [← hf']; exact hp.1
+      intro f' hf'; simp at hf'; rw [← hf']; exact survives_prefix f hp.1
     · rename_i hfin
       have hfin' : (fetchLoop chunk ct f.readAt (ct.length + 1) 0 0 (d.incoming.getD [])).2 = true := by
         simpa using hfin
